@@ -327,6 +327,20 @@ func c21run(ctx *vc.Ctx) {
 		grids = append(grids, grid{"dim8", c21patterns8(), hquick},
 			grid{"dim2", c21vectors(2, []float64{0, 0.5, -3, 1e4}), hquick})
 	}
+	// every dimensionality 1..12 (the default is 8): the zero vector, every unit vector (each component
+	// on its own: a component that is skipped or counted twice shows) and a ramp
+	for d := 1; d <= 12; d++ {
+		vecs := [][]float64{make([]float64, d)}
+		ramp := make([]float64, d)
+		for i := 0; i < d; i++ {
+			e := make([]float64, d)
+			e[i] = 0.5
+			vecs = append(vecs, e)
+			ramp[i] = 0.01 * float64(i+1)
+		}
+		vecs = append(vecs, ramp)
+		grids = append(grids, grid{fmt.Sprintf("every-dimension/dim%d", d), vecs, []float64{0, 0.5}})
+	}
 	fixed := c21signs([]float64{0, 1e-17, 1e-9, 0.5, 1, 1e4, 1e300, 1e10})
 	fixed = append(fixed, 9.2e9, 12345678.9, -87654321.0123)
 	idx := 0
